@@ -25,11 +25,11 @@ CONSTANTS KF_C11_DlfIgnoreCase, KF_C11_ToJsonDropsType
 
 Rec == ndJsonDeserialize(IOEnv.TRACE)
 
-VARIABLES l, case, phase, hdr, viol, kfUsed
-vars == <<l, case, phase, hdr, viol, kfUsed>>
+VARIABLES l, case, phase, hdr, viol
+vars == <<l, case, phase, hdr, viol>>
 
 NoHdr == [fe |-> "", f |-> [enabled |-> FALSE]]
-Init == l = 1 /\ case = -1 /\ phase = "idle" /\ hdr = NoHdr /\ viol = {} /\ kfUsed = {}
+Init == l = 1 /\ case = -1 /\ phase = "idle" /\ hdr = NoHdr /\ viol = {}
 
 Ev(e) == l <= Len(Rec) /\ Rec[l].ev = e /\ l' = l + 1
 Cur == Rec[l]
@@ -39,7 +39,6 @@ InDomain(h) == IF Expressible(h.fe, h.f) THEN TRUE ELSE PrintT(<<"DOMAIN_ERROR",
 Reset == /\ Ev("reset") /\ InDomain(Cur.hdr)
          /\ case' = Cur.case /\ hdr' = Cur.hdr /\ phase' = "running"
          /\ viol' = (IF phase = "running" THEN viol \cup {case} ELSE viol)     \* previous case never ended
-         /\ UNCHANGED kfUsed
 
 Fe == hdr.fe
 Fl == hdr.f
@@ -47,18 +46,20 @@ IcOn(f) == [f EXCEPT !.pay.ic = TRUE]
 NoTypeOf(f) == [f EXCEPT !.type = NoType]
 DlfIcApplies == Fe \in {"dlf", "dlfa"} /\ Fl.pay.k = "sub" /\ ~Fl.pay.ic
 HasType == Fl.type.k # "none"
-Used(k) == kfUsed' = kfUsed \cup {[case |-> case, kf |-> k]}
+\* a deviation that is taken is printed (KF_USED lines, collected by the check); it is not kept in the state because a
+\* growing history variable makes every fingerprint linear in the number of known cases
+Used(k) == PrintT(<<"KF_USED", case, k>>)
 Same == UNCHANGED <<case, phase, hdr, viol>>
 
 \* ---- the contract
 Decide == /\ Ev("decide") /\ phase = "running"
           /\ Cur.result = Match(Fl, Cur.m)
-          /\ Same /\ UNCHANGED kfUsed
+          /\ Same
 RoundTrip == /\ Ev("roundtrip") /\ phase = "running"
              /\ Cur.after = Cur.before
-             /\ Same /\ UNCHANGED kfUsed
+             /\ Same
 End == /\ Ev("end") /\ phase = "running"
-       /\ phase' = "ended" /\ UNCHANGED <<case, hdr, viol, kfUsed>>
+       /\ phase' = "ended" /\ UNCHANGED <<case, hdr, viol>>
 
 \* ---- known-finding deviations
 KF_Decide_DlfIgnoreCase ==
@@ -80,7 +81,7 @@ KF_RoundTrip_DlfIgnoreCase ==
     /\ Cur.before = Match(IcOn(Fl), Cur.m) /\ Cur.before # Match(Fl, Cur.m)
     /\ \/ Cur.after = Match(Fl, Cur.m) /\ Used("KF_C11_DlfIgnoreCase")
        \/ /\ KF_C11_ToJsonDropsType /\ HasType /\ Cur.after # Match(Fl, Cur.m) /\ Cur.after = Match(NoTypeOf(Fl), Cur.m)
-          /\ kfUsed' = kfUsed \cup {[case |-> case, kf |-> "KF_C11_DlfIgnoreCase"], [case |-> case, kf |-> "KF_C11_ToJsonDropsType"]}
+          /\ Used("KF_C11_DlfIgnoreCase") /\ Used("KF_C11_ToJsonDropsType")
     /\ Same
 
 Matches == ENABLED Decide \/ ENABLED RoundTrip \/ ENABLED End \/ ENABLED KF_Decide_DlfIgnoreCase
@@ -88,12 +89,12 @@ Matches == ENABLED Decide \/ ENABLED RoundTrip \/ ENABLED End \/ ENABLED KF_Deci
 Reject == /\ l <= Len(Rec) /\ Cur.ev # "reset" /\ phase = "running" /\ ~Matches
           /\ PrintT(<<"CASE_REJECTED", case, l, ToJson(Cur)>>)
           /\ l' = l + 1 /\ phase' = "rejected" /\ viol' = viol \cup {case}
-          /\ UNCHANGED <<case, hdr, kfUsed>>
+          /\ UNCHANGED <<case, hdr>>
 SkipRest == /\ l <= Len(Rec) /\ Cur.ev # "reset" /\ phase \in {"rejected", "ended", "idle"}
             /\ l' = l + 1
             /\ IF phase = "ended" THEN viol' = viol \cup {case} /\ phase' = "rejected"   \* events after `end`
                                   ELSE UNCHANGED <<viol, phase>>
-            /\ UNCHANGED <<case, hdr, kfUsed>>
+            /\ UNCHANGED <<case, hdr>>
 
 Next == Reset \/ Decide \/ RoundTrip \/ End \/ KF_Decide_DlfIgnoreCase \/ KF_RoundTrip_ToJsonDropsType
         \/ KF_RoundTrip_DlfIgnoreCase \/ Reject \/ SkipRest
@@ -101,7 +102,7 @@ Spec == Init /\ [][Next]_vars
 
 AtEnd == l = Len(Rec) + 1
 FinalViol == IF phase = "running" THEN viol \cup {case} ELSE viol
-Report == AtEnd => PrintT(<<"VERDICT", ToJson([violations |-> FinalViol, known |-> kfUsed])>>)
+Report == AtEnd => PrintT(<<"VERDICT", ToJson([violations |-> FinalViol, known |-> {}])>>)
 Accepted == IF TLCGet("stats").diameter - 1 = Len(Rec) THEN TRUE
             ELSE Print(<<"TRACE_NOT_CONSUMED", TLCGet("stats").diameter, Len(Rec)>>, FALSE)
 =============================================================================
